@@ -261,8 +261,8 @@ PROPS['C09'] = dict(
     level_note='Trusted: rustc, Kani + CBMC. Not decided: WaitingState::handle_chord accumulation and decomposition, ChordsV2::process_presses (reads an FxHashMap), what handle_chord puts into the pressed queue.',
     technique='contract harnesses (Kani/CBMC): symbolic tables / queues within stated bounds, set-theoretic oracles from the statement',
     design_ref='DESIGN.md section 4, C09',
-    explanation='chord tables (v1) and chord release tracking (v2); v1 "action repeated on every participating coordinate": Verus unit waiting (shared with C05): after the tap action ran at the chord coordinate, waiting_into_tap performs each simple action (key / output chord / one-shot / layer, also as members of a multi) once on every coordinate of the pressed queue, in order, and nothing else (spec fn repeats).',
-    verus=[dict(unit='waiting', only=['waiting_into_tap', 'lemma_sigs_push'])],
+    explanation='chord tables (v1): ChordsGroup::{get_keys, get_chord, get_chord_if_unambiguous} are proved UNBOUNDED by Verus (unit chordtab: first entry for the coordinate; exact-set match; unambiguous iff no defined chord strictly contains the pressed set - via an assumed try_fold / find contract for pure closures and closure annotations generated from the closure text, R12) in addition to the bounded Kani harnesses; chord release tracking (v2): Kani; v1 "action repeated on every participating coordinate": Verus unit waiting (shared with C05): after the tap action ran at the chord coordinate, waiting_into_tap performs each simple action (key / output chord / one-shot / layer, also as members of a multi) once on every coordinate of the pressed queue, in order, and nothing else (spec fn repeats).',
+    verus=[dict(unit='chordtab'), dict(unit='waiting', only=['waiting_into_tap', 'lemma_sigs_push'])],
     kani=[
         H('keyberon', 'action', 'c09_b_get_chord', kind='bounded', bound='<= 3 chords, 128-bit sets symbolic', functions=[A + 'ChordsGroup::get_chord']),
         H('keyberon', 'action', 'c09_b_get_chord_if_unambiguous', kind='bounded', bound='<= 3 chords', functions=[A + 'ChordsGroup::get_chord_if_unambiguous']),
@@ -275,7 +275,8 @@ PROPS['C09'] = dict(
         H('keyberon', 'chord', 'c09_b_drain_releases_behind_press', kind='bounded', bound='same, behind a pending press of an unrelated key'),
         H('keyberon', 'chord', 'c09_b_drain_releases_neg', kind='bounded', expect='fail', covers='must-fail twin'),
     ],
-    assumptions=['handle_chord (v1 accumulation / abort reasons / PressedQueue), decompose_chord_into_action_queue, ChordsV2::process_presses and clear_released_chords are NOT under contract (harnesses for handle_chord and clear_released_chords were built and exhausted 39 GB / 10-15 min without a result)',
+    assumptions=['unit chordtab: `.iter()` on the two table slices is redirected to a stub iterator (R32; yields the entries front to back); find / try_fold / Option::map / Result::unwrap_or_default (Option default = None) are ASSUMED std contracts for pure closures (the step function\'s answers exist for every visited entry); the three closures are annotated from their own text (R12; tuple patterns in closure parameters become a `let` on the dereferenced entry)',
+                 'handle_chord (v1 accumulation / abort reasons / PressedQueue), decompose_chord_into_action_queue, ChordsV2::process_presses and clear_released_chords are NOT under contract (harnesses for handle_chord and clear_released_chords were built and exhausted 39 GB / 10-15 min without a result)',
                  'drain_releases is checked for ONE active chord only: a defect that needs two chords active at once is not detected',
                  'parser guarantee used as precondition: chord key sets within a group are unique'],
     trusted_base=['rustc', 'Kani 0.68.0 / CBMC 6.11.0 / CaDiCaL'],
@@ -320,7 +321,7 @@ PROPS['C02'] = dict(
     technique='contract-based: Verus (overflow/bounds/unwrap/assert sites as obligations) + Kani default checks on the harnesses of C03 C05 C06 C09 C10 C11 C17',
     design_ref='DESIGN.md section 4, C02',
     explanation='union of panic-freedom obligations of every function under contract; the quick tier leaves out only the harnesses that are thorough-tier in their own property and the full-domain key table harness',
-    verus=[dict(unit='dynmacro', only=DYN_FUNCS), dict(unit='switch'), dict(unit='oneshot'), dict(unit='waiting'), dict(unit='ticks'), dict(unit='repeat'), dict(unit='seqs'), dict(unit='layers'), dict(unit='sexpr'), dict(unit='reload'), dict(unit='holdtap')],
+    verus=[dict(unit='dynmacro', only=DYN_FUNCS), dict(unit='switch'), dict(unit='oneshot'), dict(unit='waiting'), dict(unit='ticks'), dict(unit='repeat'), dict(unit='seqs'), dict(unit='layers'), dict(unit='sexpr'), dict(unit='reload'), dict(unit='holdtap'), dict(unit='chordtab')],
     kani=_c02_kani(),
     assumptions=[
         'NOT covered: Layout::{tick, do_action, event} outside the fragments named above, resolve_coord, process_sequences, ChordsV2::process_presses, every Kanata method except handle_repeat_actual and handle_scrolling (handle_move_mouse uses f64; tick_sequence_state returns a &mut from a getter), the parser',
@@ -493,7 +494,7 @@ EXTRA_HARNESSES = []
 GLOBAL_ASSUMPTIONS = [
     'machine arithmetic is NOT idealised: Verus checks every u8/u16/usize operation for overflow/underflow as an obligation, Kani/CBMC is bit-precise with overflow checks on; no function under contract uses floating point',
     'unsafe code: the two OsCode<->KeyCode transmutes are checked with -Z valid-value-checks (C11); History::tick_hist reads MaybeUninit slots (Kani runs it without uninitialised-memory checks); no other unsafe block is on a verified path',
-    'termination: proved for the Verus functions (decreases clauses on both evaluator loops and on SwitchActions::next); NOT proved by Kani beyond the stated unwinding bounds (unwinding assertions are on)',
+    'termination: proved for the Verus functions (decreases clauses on the evaluator loops, SwitchActions::next, the PermissiveHold scan of handle_hold_tap; for-loops over finite collections) EXCEPT parse_with_builder (unit sexpr: the token iterator is opaque, `exec_allows_no_decreases_clause`); NOT proved by Kani beyond the stated unwinding bounds (unwinding assertions are on)',
     'concurrency (the processing thread, the global mutexes for custom key names / zippychord) is outside every obligation',
     'only the target_os = "linux" configuration of /repo is verified',
 ]
